@@ -73,12 +73,13 @@ abbrev LL (K : Type) := List (Deg K × Deg K)
 
 /-- which repairs are applied -/
 structure Variant where
-  /-- `_populate_node_latlon` wraps the derived longitudes into [-180, 180] (C04-node-lon-range) -/
+  /-- the `node_lon`/`node_lat` getters call `_set_desired_longitude_range` AFTER
+      `_populate_node_latlon` instead of before it (C04-node-lon-range) -/
   nodeWrap : Bool
   /-- stored centre lon/lat are converted to radians before `_lonlat_rad_to_xyz`
       (C04-centre-xyz-degrees) -/
   centreDeg2Rad : Bool
-  /-- stored centre xyz are normalised before `arcsin` (C04-centre-lonlat-nonunit) -/
+  /-- lon/lat of stored centre xyz are computed with `normalize=True` (C04-centre-lonlat-nonunit) -/
   centreNormalize : Bool
 deriving DecidableEq, Repr
 
@@ -175,14 +176,11 @@ def lonLatDegOfXyz (T : Ops K) (norm : Bool) (v : V3 K) : Deg K × Deg K :=
   let r := lonLatRadOfXyz T norm v
   (⟨wrap180 T (rad2deg T r.1).val⟩, rad2deg T r.2)
 
-/-- `_populate_node_latlon` for one node: `_xyz_to_lonlat_rad(…)` (normalize=True) and `rad2deg`.
-    AS-IS there is no wrap, so longitudes west of the prime meridian come out in (180, 360);
-    REPAIRED it is `_xyz_to_lonlat_deg`. -/
-def nodeLLOfXyz (T : Ops K) (V : Variant) (v : V3 K) : Deg K × Deg K :=
-  if V.nodeWrap then lonLatDegOfXyz T true v
-  else
-    let r := lonLatRadOfXyz T true v
-    (rad2deg T r.1, rad2deg T r.2)
+/-- `_populate_node_latlon` for one node: `_xyz_to_lonlat_rad(…)` (normalize=True) and `rad2deg`;
+    NO wrap, so longitudes west of the prime meridian come out in (180, 360) -/
+def nodeLLOfXyz (T : Ops K) (v : V3 K) : Deg K × Deg K :=
+  let r := lonLatRadOfXyz T true v
+  (rad2deg T r.1, rad2deg T r.2)
 
 /-- `_populate_node_xyz` for one node -/
 def nodeXyzOfLL (T : Ops K) (p : Deg K × Deg K) : V3 K := dirDeg T p
@@ -192,10 +190,10 @@ def nodeXyzOfLL (T : Ops K) (p : Deg K × Deg K) : V3 K := dirDeg T p
 def centreXyzOfLL (T : Ops K) (V : Variant) (p : Deg K × Deg K) : V3 K :=
   if V.centreDeg2Rad then dirDeg T p else xyzOfLonLatRad T p.1.asRad p.2.asRad
 
-/-- (lon, lat) of a STORED centre xyz: `_xyz_to_lonlat_deg(…, normalize=False)`; REPAIRED the
-    stored vector is normalised first (it may have any radius) -/
+/-- (lon, lat) of a STORED centre xyz: AS-IS `_xyz_to_lonlat_deg(…, normalize=False)` although the
+    stored vector may have any radius; REPAIRED `normalize=True` for stored vectors -/
 def centreLLOfStoredXyz (T : Ops K) (V : Variant) (v : V3 K) : Deg K × Deg K :=
-  lonLatDegOfXyz T false (if V.centreNormalize then normalizeV T v else v)
+  lonLatDegOfXyz T V.centreNormalize v
 
 /-! ### centroids -/
 
@@ -245,9 +243,9 @@ def ensureNodeXYZ (T : Ops K) (s : St K) : St K :=
     | none => s
 
 /-- `_populate_node_latlon`: reads the node xyz (stored, since lon/lat are absent) -/
-def populateNodeLL (T : Ops K) (V : Variant) (s : St K) : St K :=
+def populateNodeLL (T : Ops K) (s : St K) : St K :=
   match s.nodeXYZ with
-  | some xs => { s with nodeLL := some (xs.map (nodeLLOfXyz T V)) }
+  | some xs => { s with nodeLL := some (xs.map (nodeLLOfXyz T)) }
   | none => s
 
 /-- the body shared by `_populate_face_centroids` and `_populate_edge_centroids`: given the
@@ -302,13 +300,16 @@ def normalizeOp (T : Ops K) (s : St K) : St K :=
 
 /-! ### the lazy properties -/
 
-/-- one access.  `node_lon`/`node_lat`: `_set_desired_longitude_range` BEFORE populating;
+/-- one access.  `node_lon`/`node_lat`: AS-IS `_set_desired_longitude_range` BEFORE populating (so
+    the freshly derived longitudes stay in [0, 360) until some other getter wraps them), REPAIRED after;
     `edge_lon`/`edge_lat`: populate if absent, then ALWAYS `_set_desired_longitude_range`;
     `face_lon`/`face_lat`: populate and `_set_desired_longitude_range` if absent;
     the Cartesian getters: populate if absent. -/
 def step (T : Ops K) (V : Variant) (c : Conn) (s : St K) : Op → St K × Report K
   | .getLL .node =>
-    let s' := if s.nodeLL.isNone then populateNodeLL T V (wrapRange T s) else s
+    let s' := if s.nodeLL.isNone then
+        (if V.nodeWrap then wrapRange T (populateNodeLL T s) else populateNodeLL T (wrapRange T s))
+      else s
     (s', .ll .node s'.nodeLL)
   | .getXYZ .node =>
     let s' := ensureNodeXYZ T s
